@@ -30,6 +30,26 @@ CHECKS = {
   text='Exhaustive enumeration of recording layouts (cycle lengths 1-3, optional gaps) x every selection vector, up to 4/5 cycles fully and every selection vector up to length 9/12 on fixed layouts, plus random instances up to 200 cycles; all 12 map_* and 6 project_* functions compared with set-theoretic definitions.',
   note='Label vectors are built by the reference model as 1-D integer arrays.',
   technique='exhaustive enumeration + property-based testing against set-theoretic reference definitions'),
+ 'C01': dict(
+  text='Hypothesis-generated signals of every listed family (short noisy signals over-weighted so that the extrema-vanished exit path is reached) x stop rule x step x interpolator x pad width; checks additive completeness (1e-9 relative) and that a self-terminated sift ends in a non-oscillatory residual, with the exit path of every extraction measured by an independent reference extraction.',
+  note='Convergence errors are an accepted outcome; results cut by sift_thresh are exempt as the property states.',
+  technique='property-based testing with an invariant oracle (sum and residual-extrema predicates)'),
+ 'C04': dict(
+  text='Differential testing of get_next_imf against an independent re-implementation of the stated iteration (bit-exact on the current tree) over stop rules, thresholds, step sizes, iteration limits 1..1000, interpolators and pad widths, with a dedicated generator for the extrema-vanished path and the iteration-limit boundary.',
+  note='scipy interpolators are shared trusted base; mismatches on ill-conditioned stop decisions (within 1e-9 of threshold) are counted as excluded, not reported.',
+  technique='property-based differential testing against a reference model'),
+ 'C05': dict(
+  text='Exhaustive enumeration of every sequence of length 3..7 (quick) / 3..9 (thorough) over a 3-level alphabet through 36 extrema calls and 90 envelope calls each, plus Hypothesis-generated signals with custom np.pad options; extrema compared with strict local maxima/minima and np.pad, envelopes with interpolants rebuilt at the integer sample times.',
+  note='scipy splrep/splev/PchipInterpolator trusted; pad_width=0 envelopes may raise cleanly.',
+  technique='exhaustive enumeration + property-based testing against reference extrema/envelope models'),
+ 'C09': dict(
+  text='Hypothesis-generated AM-FM inputs and pure sinusoids over methods x sample rates x amplitudes x phases: shape/range/derivative consistency, accuracy within calibrated tolerances, closed-form phase<->frequency round trip and scale invariance (dyadic and real factors).',
+  note='Accuracy tolerances are empirical calibrations (>=3x head-room), not derived bounds.',
+  technique='property-based testing with metamorphic relations, closed forms and calibrated accuracy bounds'),
+ 'C17': dict(
+  text='Hypothesis-generated feature arrays (continuous, tie-rich integer, clustered) x K x distance bounds checked against a validity predicate: equal lengths, in-range, injective on both sides, within bound and within the K-th nearest-neighbour distance.',
+  note='Validity predicate only - which of several admissible pairings is returned is not constrained.',
+  technique='property-based testing with a validity-predicate oracle'),
 }
 
 NOT_APPLICABLE = [{'property_id': p, 'reason': 'check not built yet in this round (planned with the same technique, see DESIGN.md section 2)'}
